@@ -61,24 +61,28 @@ def _path_loop_over(F, eff, top, param):
         e = loop.iter
         j = i
         while True:
+            at = F.atoms(e, path[j][0])
             if any(isinstance(x, ast.Subscript) for x in ast.walk(e)) or \
-                    has_call(F.atoms(e, path[j][0]), 'if'):
+                    has_call(at, 'if'):
                 return False
             if path[j][0] is top:
-                return param_of(F.atoms(e, top), param)
-            if not isinstance(e, ast.Name) or j == 0:
+                return param_of(at, param)
+            if j == 0:
                 return False
+            # which parameter of this helper does the iterable come from?
             ps = Q.params(path[j][0].node)
-            if e.id not in ps:
+            src = [p_ for p_ in ps if 'param:' + p_ in at or any(
+                a.startswith('param:' + p_ + '.') for a in at)]
+            if len(src) != 1:
                 return False
             call = path[j - 1][1]
             if not isinstance(call, ast.Call):
                 return False
-            k = ps.index(e.id)
+            k = ps.index(src[0])
             if ps and ps[0] in ('self', 'cls') and isinstance(
                     call.func, ast.Attribute):
                 k -= 1
-            arg = Q.kwarg(call, e.id)
+            arg = Q.kwarg(call, src[0])
             if arg is None and 0 <= k < len(call.args):
                 arg = call.args[k]
             if arg is None:
